@@ -105,6 +105,23 @@ def generate(rng, tier, mult):
         for _ in range(total if total < 10 else 10):
             ops.append("write_from %s #1" % num(total))
         scripts.append({"ops": ops, "meta": {"kind": "sized", "total": total}})
+    # progress after a REFUSED call: an over-length write / direct-write report is refused and must leave the body as it was, so the
+    # correctly sized writes that follow make progress as if nothing had happened (state left behind by an error: seeded change C19-15)
+    for total in [1, 5, 1000]:
+        for refusal in (["write_body z%d #100000" % (total + 1)], ["direct %s" % num(total + 1)], ["write_body z%d #3" % (total + 7), "direct %s" % num(total + 2)]):
+            ops = [op_new("POST", "1.1", "http", "a.test", "/", [("content-length", str(total))]), "proceed", "write_head #4096", "proceed", "body z%d" % total]
+            ops += refusal
+            for _ in range(total if total < 10 else 10):
+                ops.append("write_from %s #1" % num(total))
+            ops += ["write_from %s #100000" % num(total), "q_can_proceed"]
+            scripts.append({"ops": ops, "meta": {"kind": "sized", "total": total, "after_refusal": True}})
+    for cap in [6, 21, 1000]:
+        ops = list(head) + ["body z300", "direct #5"]           # refused for a chunked body (BodyIsChunked)
+        for _ in range(300):
+            ops.append("write_from #300 %s" % num(cap))
+            if len(ops) > 60 and cap > 6:
+                break
+        scripts.append({"ops": ops, "meta": {"kind": "loop", "cap": cap, "total": 300, "steps": 0, "open_end": True}})
     return scripts
 
 
@@ -175,7 +192,7 @@ def oracle(script, obs):
                 if sent < total and ci < 1:
                     return ["caller loop stuck: cap %d, %d of %d sent, write consumed 0" % (script["meta"]["cap"], sent, total)]
                 sent += ci
-        if sent != total:
+        if sent != total and not script["meta"].get("open_end"):
             fails.append("caller loop with cap %d did not finish %d bytes in %d steps (sent %d)" % (script["meta"]["cap"], total, script["meta"]["steps"], sent))
     else:
         total = script["meta"]["total"]
@@ -188,6 +205,11 @@ def oracle(script, obs):
                 if ci < 1:
                     return ["sized body: no progress with 1 byte of output"]
                 sent += ci
+        if script["meta"].get("after_refusal"):
+            if sent != total:
+                return ["sized body: %d of %d bytes sent after a refused call" % (sent, total)]
+            if obs[len(ops) - 1] != "true":
+                return ["sized body sent completely after a refused call, but the flow cannot proceed"]
     return fails
 
 
